@@ -44,7 +44,16 @@ def decide(prop, tier, seed, args, t0):
     baseline = load_baseline().get(prop, {})
     ob_timeout_ms = int(reg.get("ob_timeout_ms", 30000 if tier == "quick" else 60000))
     max_paths = int(reg.get("max_paths", 20000))
-    keep_smt = tier == "thorough"
+    keep_smt = False
+    if tier == "thorough":
+        # export discharged VCs for cvc5: all of them for small checks, a deterministic 4 % sample for large ones
+        keep_smt = "all"
+        try:
+            prev = json.load(open(os.path.join(VERIF, "evidence", f"{prop}.json")))["coverage"].get("obligations", 0)
+            if prev > 3000:
+                keep_smt = "sample"
+        except Exception:  # noqa
+            pass
 
     jobs = [j for j in runner.make_jobs(reg.get("modules", []), only=args.only or None) if j["prop"] == prop]
     if tier == "quick":
@@ -121,8 +130,29 @@ def decide(prop, tier, seed, args, t0):
             cvc5_stats[r] += 1
             if r == "unsat":
                 o["status"], o["backend"] = "discharged", "cvc5"
+    cvc5_disagree = []
     if tier == "thorough":
-        pass  # (discharged VCs carry no smt2 text; z3 unknowns were retried above)
+        # second opinion on a sample of the VCs z3 discharged: at most 4 per obligation name and 160 per check, 10 s each, 12 at a time
+        from concurrent.futures import ThreadPoolExecutor
+        per_name = Counter()
+        sample = []
+        for o in all_obs:
+            if o["status"] == "discharged" and o.get("smt2") and per_name[o["name"]] < 4 and len(sample) < 160:
+                per_name[o["name"]] += 1
+                sample.append(o)
+        with ThreadPoolExecutor(max_workers=12) as ex:
+            for o, r in zip(sample, ex.map(lambda o: cvc5_check(o["smt2"], 10), sample)):
+                r = r if r in ("unsat", "sat", "unknown", "unavailable") else "error"
+                cvc5_stats["sample_" + r] += 1
+                if r == "unsat":
+                    o["backend"] = "z3+cvc5"
+                elif r == "sat":
+                    # the two solvers disagree on this VC: not trusted either way
+                    o["status"], o["reason"] = "unknown", "z3 discharged this VC but cvc5 reports a model (solver disagreement)"
+                    cvc5_disagree.append(o["name"])
+        for o in all_obs:
+            if o["status"] == "discharged":
+                o.pop("smt2", None)
 
     violations = []      # (obligation name, replay path, reproduced?)
     undecided = []
@@ -287,7 +317,8 @@ def write_evidence(prop, tier, seed, reg, jobs, results, all_obs, bounded_out, v
         "paths_explored": sum(r["paths"] for r in results),
         "infeasible_after_assume": sum(r["dead_paths"] for r in results),
         "solver_time_s": round(sum(o["time_s"] for o in all_obs), 2),
-        "back_ends": {"z3": sum(1 for o in all_obs if o["backend"] == "z3"), "cvc5": sum(1 for o in all_obs if o["backend"] == "cvc5")},
+        "back_ends": {"z3": sum(1 for o in all_obs if o["backend"] == "z3"), "cvc5": sum(1 for o in all_obs if o["backend"] == "cvc5"),
+                      "z3_and_cvc5_agree_on_sample": sum(1 for o in all_obs if o["backend"] == "z3+cvc5"), "cvc5_sample": dict(cvc5_stats)},
         "opaque_calls": sorted(opaque),
         "known_findings_reported": known_lines,
         "bounded_parts": [{k: v for k, v in b.items() if k not in ("trace",)} for b in bounded_out],
